@@ -46,3 +46,100 @@ Fixpoint tiles_from (s n : Z) (st ed sz : list Z) : Prop :=
 
 (* a noiseless step: a before position t, b from t on *)
 Definition step_signal (a b : Q) (t n : nat) : list Q := repeat a t ++ repeat b (n - t).
+
+(* two clean steps: a before t1, b on t1..t2-1, c from t2 on *)
+Definition two_step_signal (a b c : Q) (t1 t2 n : nat) : list Q :=
+  repeat a t1 ++ repeat b (t2 - t1) ++ repeat c (n - t2).
+
+(* the tent of half-width h centred at t: h at t, falling by one per bin to 0 at distance h *)
+Definition tent (h t k : Z) : Z := Z.max 0 (h - Z.abs (k - t)).
+Definition tentQ (h t k : Z) : Q := inject_Z (tent h t k).
+
+(* unit step at t *)
+Definition ustep (t j : Z) : Q := if t <=? j then 1%Q else 0%Q.
+
+(* share of the weight of the h bins s .. s+h-1 (mirror-padded) that lies at or after position t *)
+Definition weight_share_after (w : list Q) (t h s : Z) : Q :=
+  (wsum (fun j => ustep t j * padded w j)%Q s (Z.to_nat h) / wsum (padded w) s (Z.to_nat h))%Q.
+
+(* shape of the weighted Haar convolution of a step at t, per unit of (b - a) * scale: the share of
+   the upper window's weight past the step minus that of the lower window -- 0 up to t-h, strictly
+   increasing to 1 at t, strictly decreasing to 0 at t+h, 0 after *)
+Definition weighted_tent (w : list Q) (t h k : Z) : Q :=
+  (weight_share_after w t h k - weight_share_after w t h (k - h))%Q.
+
+(* weights: none, or the same positive weight for every bin *)
+Definition uniform_weights (n : nat) (wt : option (list Q)) : Prop :=
+  match wt with
+  | None => True
+  | Some w => exists c, (0 < c)%Q /\ w = repeat c n
+  end.
+
+(* amplitude per unit of tent: (b - a) / sqrt(2h) unweighted; sqrt(h/2) * (b - a) / h weighted *)
+Definition step_amp (scale : Q) (wt : option (list Q)) (h : Z) (d : Q) : Q :=
+  match wt with
+  | None => (d / scale)%Q
+  | Some _ => (scale * d / inject_Z h)%Q
+  end.
+
+(* ---------- segment means (SegmentByPeaks) ---------- *)
+
+(* element j of a list, 0 outside *)
+Definition at_ (l : list Q) (j : Z) : Q := nth (Z.to_nat j) l 0%Q.
+
+(* plain mean of the bins s .. e-1 *)
+Definition range_mean (d : list Q) (s e : Z) : Q :=
+  (wsum (at_ d) s (Z.to_nat (e - s)) / inject_Z (e - s))%Q.
+
+(* total weight and weighted mean of the bins s .. e-1 *)
+Definition range_weight (w : list Q) (s e : Z) : Q := wsum (at_ w) s (Z.to_nat (e - s)).
+Definition range_wmean (d w : list Q) (s e : Z) : Q :=
+  (wsum (fun j => at_ d j * at_ w j)%Q s (Z.to_nat (e - s)) / range_weight w s e)%Q.
+
+(* what SegmentByPeaks promises for the bins s .. e-1: the weighted mean when weights are given
+   and their total over the segment is positive, the plain mean otherwise *)
+Definition is_segment_mean (d : list Q) (wt : option (list Q)) (s e : Z) (m : Q) : Prop :=
+  match wt with
+  | None => (m == range_mean d s e)%Q
+  | Some w => ((0 < range_weight w s e)%Q -> (m == range_wmean d w s e)%Q) /\
+              (~ (0 < range_weight w s e)%Q -> (m == range_mean d s e)%Q)
+  end.
+
+(* breakpoints strictly inside 0..n, strictly increasing *)
+Definition breaks_in (n : Z) (bps : list Z) : Prop :=
+  ssorted bps /\ forall x, In x bps -> 0 < x < n.
+
+(* the half-open segments cut by the breakpoints: (0,p1), (p1,p2), ..., (pk,n) *)
+Fixpoint segments_of (prev : Z) (bps : list Z) (n : Z) : list (Z * Z) :=
+  match bps with
+  | [] => [(prev, n)]
+  | p :: t => (prev, p) :: segments_of p t n
+  end.
+
+(* weights, when given, have the data's length *)
+Definition wt_len_ok (d : list Q) (wt : option (list Q)) : Prop :=
+  match wt with Some w => length w = length d | None => True end.
+
+(* rows (start, end inclusive, size, mean) of haar_result_of, one per segment *)
+Fixpoint rows_ok (data : list Q) (wt : option (list Q)) (segs : list (Z * Z)) (st ed sz : list Z) (mn : list Q) : Prop :=
+  match segs, st, ed, sz, mn with
+  | [], [], [], [], [] => True
+  | (s, e) :: segs', s' :: st', e' :: ed', z :: sz', m :: mn' =>
+      s' = s /\ e' = (e - 1) /\ z = (e - s) /\ is_segment_mean data wt s e m /\
+      rows_ok data wt segs' st' ed' sz' mn'
+  | _, _, _, _, _ => False
+  end.
+
+(* rows (start coordinate, end coordinate, mean, probes) of the one_chrom table: the segment s..e-1
+   starts where its first bin starts, ends where its last bin ends, counts e-s bins and carries the
+   (weighted) mean of exactly those bins *)
+Fixpoint table_ok (data : list Q) (wt : option (list Q)) (starts ends : list Z) (segs : list (Z * Z))
+    (rows : list (Z * Z * Q * Z)) : Prop :=
+  match segs, rows with
+  | [], [] => True
+  | (s, e) :: segs', (cs, ce, m, z) :: rows' =>
+      cs = nth (Z.to_nat s) starts 0 /\ ce = nth (Z.to_nat (e - 1)) ends 0 /\ z = e - s /\
+      is_segment_mean data wt s e m /\ table_ok data wt starts ends segs' rows'
+  | _, _ => False
+  end.
+
